@@ -5,95 +5,430 @@ HERE = os.path.dirname(os.path.dirname(os.path.abspath(__file__)))
 ASSUME = ("Trusted: Lean 4.33 kernel + Mathlib (axioms propext, Classical.choice, Quot.sound only; audited per theorem), "
           "the hand-written model's correspondence harness (differential run of model driver vs real code in-process), "
           "translators under translate/. Theorems are in exact real arithmetic; IEEE rounding, numpy/scipy/dill internals "
-          "and the OS are modelled or assumed, see DESIGN.md §3.3/§5 and the evidence file's modelled_not_verified list.")
+          "and the OS are modelled or assumed, see DESIGN.md §3.3/§5 and the evidence file's modelled_not_verified list. "
+          "The per-clause status (PROVED / PROVED-UNDER-H / ORACLE-ONLY / NOT-COVERED, with every remaining hypothesis named) "
+          "lives in clauses/<id>.md.")
+# Texts rewritten after the clause audits: they describe what is proved and tied NOW; the authoritative per-clause matrix
+# (clause -> Lean theorems -> hypotheses -> suites -> status) of each property is clauses/<id>.md.
 CLAIMED = {
  # id: (technique, level text, design_ref)
- "C16": ("Lean 4 proof over a Sc-polymorphic model of apply_boundary_conditions/check_bounds + exact-dyadic (Rat) and bit-exact (Float) differential correspondence",
-         "Theorems for every real x, every index list and every point: periodic = value mod 1 in [0,1), reflective = period-2 triangle fold in [0,1] (even, period 2, identity on [0,1]), idempotence, untouched coordinates, check_bounds iff, folded random-walk kernels symmetric. The same model term is executed at Rat and Float and compared exactly / bit-for-bit with the real functions on adversarial doubles, so a change of the code's function breaks the correspondence.",
-         "DESIGN.md §6 C16"),
-}
-CLAIMED.update({
- "C04": ("Lean 4 proof at ℝ over the ScT-polymorphic model of compute_logw_and_logz + toleranced Float correspondence on generated histories and real runs",
-         "Theorems for every well-formed history (T>=1, n_t>=1, any beta_t, z_t, logl): the max-shifted logaddexp fold equals log-sum-exp, logw = beta*l - log sum_t (n_t/N) exp(beta_t l - z_t), logz = log mean weight, normalised weights sum to one, permutation invariance of iterations, the shift law, uniformity at beta=0, exp arguments <= 0 and explicit bounds (finiteness in exact arithmetic). The model term runs at Float against the real StateManager within 1e-9(1+scale).",
-         "DESIGN.md §6 C04"),
- "C07": ("Lean 4 induction over pipeline op sequences on a struct-of-arrays model whose field tables are regenerated from source (AST translator G5) + exact tagged-particle correspondence on the real Mutator/Resampler/StateManager",
-         "C07_reachable: for every sequence of prior draws, -inf replacements, resamplings, accept/reject steps and commits, every current particle and every committed batch is a coherent (u, x=T(u), (logl,blob)=L(x)) record, given that each movement site applies its index/mask to all four arrays — the obligation C07_tables_complete, decided on tables regenerated from /repo on every run. Real components driven with tagged particles and injected randomness must reproduce the model's tag arrays exactly.",
-         "DESIGN.md §6 C07"),
- "C12": ("Lean 4 proof of the run-loop exit condition and of posterior() row alignment over tables/constants regenerated from source (G1, G5) + exact correspondence on all 16 option combinations and a bit-exact Float guard",
-         "C12_run_post: whenever run() returns, 1-beta < the regenerated tolerance (= double 1e-4), ESS >= n_total and evidence = Z(1) of the final history; C12_posterior_aligned: for all option combinations and any trimming/resampling routines returning as many weights as indices, all returned arrays have one length and each row is one history particle in x, logl, blobs and logw alike; weights normalised / uniform under resampling. Termination itself is not claimed.",
-         "DESIGN.md §6 C12"),
-})
-CLAIMED.update({
- "C06": ("Lean 4 proof at ℝ (incl. Lebesgue integrals over the offset) on the Sc-polymorphic model of systematic_resample and numpy's legacy choice + exact-dyadic (complete offset partition) and bit-exact Float correspondence",
-         "For every n, every weight vector and every offset: exactly n indices, all in range, non-decreasing (no assumption on the sum); the loop returns the least covering cell (spec lemma); with sum exactly 1 the closed-form count, the floor/ceil law and unbiasedness (indicator decomposition and integral = n*w_j); the renormalised and deficit cases stated precisely; multinomial cell law and its integral. Real systematic_resample / np.random.choice / Resampler.run / posterior(resample) are compared with the Rat model on the complete finite partition of the offset and bit-for-bit with the Float model.",
-         "DESIGN.md §6 C06"),
- "C09": ("Lean 4 theorems about effect programs over an abstract generator + decide-obligations on the RNG effect table regenerated from source (AST translator G3) + dynamic call-site cross-check and exact seeded-run / no-reset observations",
-         "Programs without seeding are injective in the ambient generator state, a constant reseed forgets it, a run that first seeds with the user's random_state is a function of that seed alone; obligations decided on the regenerated table: no literal seed, no literal reaching a global seed through a constructor attribute, all seed arguments user-driven, no unknown RNG source, run seeds before its first draw. Dynamic twin: observed numpy.random call sites are a subset of the table; same random_state twice is bit-identical, different ones differ; after every library operation the global stream still depends on the ambient seed.",
-         "DESIGN.md §6 C09"),
-})
-CLAIMED.update({
- "C05": ("Lean 4 proof at ℝ for EVERY metric oracle (no monotonicity assumed) over the Sc-polymorphic model of Reweighter.run + exact Rat / bit-exact Float correspondence with a table-driven oracle injected into the real Reweighter, and replay of real runs",
-         "For every oracle, every beta_prev in [0,1]: the ESS upper limit lies in [beta_prev,1] and, if it moved, has ESS >= target (loop invariant; 14 halvings suffice so fuel never decides); ESS mode: beta in [beta_prev, beta_upper] and advancing implies ESS >= target (the bisection branch is dead code); volume mode: never beyond the ESS-limited temperature; in all branches the returned weights, recorded ESS and recorded evidence are the oracle's at the SAME beta that is written to state; schedule starts at 0 and is monotone in [0,1]. The real Reweighter with an injected table oracle must reproduce the model's decisions, oracle-call sequence and state exactly.",
-         "DESIGN.md §6 C05"),
- "C13": ("Lean 4 proof over dispatch/accounting tables regenerated from source (AST translator G6) + exact paired-run and counting-likelihood correspondence",
-         "For every pool setting dispatch succeeds; if a vectorised likelihood is pointwise the scalar one and a pool's map preserves input order, every strategy hands the algorithm identical values (C13_dispatch, C13_transparent); for any sequence of warm-up and mutation iterations calls == points evaluated, given that each counting site advances by the size of the batch evaluated there (obligation decided on the regenerated table). Real seeded runs under scalar / vectorised / reversed / shuffled / threaded / lazy pools and pool=1 must be bit-identical and an instrumented likelihood must agree with state['calls'] and the model after every iteration.",
-         "DESIGN.md §6 C13"),
- "C20": ("Lean 4 proof at ℝ (Cauchy-Schwarz on lists; numpy's linear percentile on a merge-sorted list; Mathlib matrices for the volume metric) + exact Rat, bit-exact Float and toleranced correspondence",
-         "ESS in [1,N], scale invariant, N for uniform weights, compute_ess = ESS/N and shift invariant; trimming returns exactly the upper set {w_i >= theta} with samples and weights selected by one mask, normalised, ESS(trimmed) >= ess*ESS(all), maximal on the grid, and the loop always stops by i = 0; the volume-variation metric is non-negative, weight-scale invariant and invariant under invertible affine maps when the weighted covariance has full rank (the regularised branch is not, stated). np.percentile / np.linspace are matched bit for bit by the model; real trim_weights is compared exactly on dyadic inputs.",
-         "DESIGN.md §6 C20"),
-})
-CLAIMED.update({
- "C03": ("Lean 4 proof at ℝ (rpow identities, Bochner integral over the mixing scale, tsum re-indexing for folded kernels) over kernel expressions regenerated from source (AST translator G4) with bridging obligations + toleranced one-step correspondence on the real runners under taped randomness",
-         "Interior detailed balance for both kernels for every state pair and all (mu, Sigma, nu, sigma, beta, d): the tpCN integrand t*IG*N_s is symmetric for every s>0 hence the proposal is reversible w.r.t. the Student-t, the generated acceptance is the Metropolis-Hastings ratio; RWM with periodic coordinates (any dimension, correlated increments) and with reflective coordinates when the increment density is even in each reflective coordinate. Machine-checked NEGATIONS document the three recorded findings (truncation by redraw at hard walls, tpCN Student-t ratio at folded points, reflective + correlated covariance). The scalar kernel expressions are regenerated from mcmc.py on every run and proved equal to the canonical model; the real runners must reproduce the Float one-step model.",
-         "DESIGN.md §6 C03"),
- "C19": ("Lean 4 proof at ℝ with Mathlib matrices (affine invariance of the Mahalanobis form, induction over the ECME loop with an uninterpreted nu-update) + toleranced replay of the real fit's iterates by an executable Float twin",
-         "For every invertible affine map the loop body and the whole loop are equivariant; with the initialisation this gives equivariance of the fit under per-coordinate scaling (either sign), translation and permutation; every iterate keeps the location a convex combination of the data (inside the bounding box) and the scale matrix symmetric positive definite for non-degenerate data; nu in (0,inf] given the bisect bracket; non-finite dof (inf or nan) is replaced by the fallback exactly then. Recovery of generating parameters is statistical and only covered by the fixed-seed witness of the repaired defect (nu was always inf). The real fit_mvstud's nu tape is replayed through the Float twin, which must reproduce every (mu, Sigma) iterate.",
-         "DESIGN.md §6 C19"),
-})
-CLAIMED.update({
- "C11": ("Lean 4 proof at ℝ on a linear-space (Rat-executable) model of the warm-up phase + scripted-batch correspondence on the real Sampler",
-         "For any number of prior-sampling iterations and any batches: if the first warm-up batch had -inf draws and every such batch has a finite fraction in [lo,hi], every recorded warm-up evidence lies in [lo,hi] (exactly f when all fractions equal f): the fraction is counted once, nothing compounds (the history-based estimate is a weighted harmonic mean); replacement of -inf draws by copies of finite ones leaves only finite log-likelihoods. The repaired compounding rule and the all-inf batch (known finding F8) are stated as theorems about the old / excluded behaviour. Real warm-up iterations with scripted numbers of finite draws must reproduce the Rat model's evidence.",
-         "DESIGN.md §6 C11"),
- "C15": ("Lean 4 proof (list induction for the split loop; real algebra for the M-step) on executable models of the EM M-step / initialisation and of the hierarchical split loop driven by recorded decisions + toleranced and exact correspondence",
-         "Hierarchical model: the cluster list stays a partition of the training indices, every point gets exactly one label < K, K <= max_iterations+1, no accepted split has a child below min_points, argmax/argmin predictions are < K. M-step: mixing weights on the simplex, covariances symmetric PSD (diag >= 0), means convex combinations inside the bounding box for components with S_k >= tiny, integer weights equivalent to replication (weights, means, covariances incl. the +eps terms), initial responsibilities rows on the simplex. The whole-fit statement is conditional on finite non-negative responsibilities (scipy's density is outside the model). Real _m_step/_e_step/_initialize_parameters vs Float model; real HierarchicalGaussianMixture.fit replayed decision by decision.",
-         "DESIGN.md §6 C15"),
-})
-CLAIMED.update({
- "C01": ("PARTIAL — Lean 4 proofs of the exact-arithmetic skeleton (balance-heuristic identity on finite spaces, kernel invariance, mean-field recursion, structural facts of the pipeline model) + whole-pipeline trace replay tying the composed step models to the real sampler",
-         "Proved: with batches at their nominal tempered laws and exact normalisers the mixture-importance estimator is exactly unbiased for the tempered integrals (mean unnormalised weight = Z_beta, ratio = posterior mean), also with a likelihood vanishing on part of the prior given one beta=0 batch; a reversible kernel keeps the tempered law; the mean-field recursion keeps every batch at its nominal law for any schedule; in the pipeline model the weights handed to resampling, the beta of every accept/reject step and the committed (beta, logz) belong to one beta, and each iteration appends one batch. NOT a theorem: a rate for the finite-particle deviation (the statement's allowance) — hence partial. Tie: real runs with all randomness observed are replayed by the Lean pipeline model (composition of the C04/C20/C05/C06/C03/C11/C07 models), which must reproduce beta, ESS, logZ, resampled indices, accept masks and committed batches.",
+ "C01": ("PARTIAL — machine-checked proof in Lean 4 of the exact-arithmetic skeleton (balance-heuristic identity on finite "
+          "and on arbitrary measurable spaces, kernel invariance, mean-field recursion, finite-N facts) and of run-level "
+          "theorems for every configuration and tape of two executable pipeline models (Model/Pipeline.lean, "
+          "Model/PipelineX.lean), with the kernel expressions regenerated from mcmc.py by translator G4 and the models tied to "
+          "the real Sampler by toleranced-Float replays of recorded runs (pipeline-trace-replay, extended-trace-replay, "
+          "posterior-of-run; decisions exact); NOT a theorem: any rate for the finite-particle deviation, and that a batch has "
+          "its nominal tempered law at finite N.",
+         "Proved for every configuration and every tape of the extended model X (run_sampling of a fresh run: both "
+         "reweighting modes, per-walker proposal / fold / hard-wall rejection, sigma adaptation, stopping rule, loop guard, "
+         "epilogue, compute_posterior): a completed run has 1-beta < tol and ESS >= n_total; the untrimmed posterior() "
+         "returns the pool with the self-normalised mixture weights at beta=1 and an estimate is the ratio of the two "
+         "balance-heuristic sums; one beta per iteration, schedule from 0, monotone in [0,1], one batch appended; tpCN step "
+         "sizes stay in [0,0.99]. Under the hypothesis 'batches at their nominal laws, exact normalisers' (nobody's theorem "
+         "at finite N): unbiasedness on finite and on measurable spaces; exact finite-N unbiasedness only for the warm-up "
+         "pool (H_tape: i.i.d. innovations, pure user functions - assumed, not checkable). Negative results are theorems: "
+         "estimated normalisers bias Z at finite N; the DEFAULT trimmed posterior targets E[f | w >= theta] (shift <= "
+         "2(1-ess_trim) sup|f|; known finding F35); a kernel chosen by the starting label is invariant only without label "
+         "crossing (F39). F17/F21 (C03) falsify the folded-tpCN / reflective-correlated cells. NOT covered: a rate in N - "
+         "hence partial. Recorded real runs (70-cell lattice incl. clustering, volume-variation, folded coordinates) are "
+         "replayed every run within 1e-9; trainer output and the metric table stay on the tape.",
          "DESIGN.md §6 C01"),
- "C02": ("PARTIAL — Lean 4 proofs (unbiasedness of the evidence estimator under nominal laws, evidence() = log mean weight at beta=1, recorded logz = estimate at the recorded beta, RNG dataflow re-exported from C09) + evidence trace replay and seed-sensitivity observations",
-         "Proved: E[mean unnormalised weight] = Z_beta under the nominal batch laws; the final evidence of the pipeline model is log((1/N) sum exp logw) at beta=1 over the whole history; each recorded logz is the estimator evaluated on the history available then; no library operation forgets the ambient seed, seeded runs are functions of the seed. NOT theorems: finite-N bias/variance bounds and statistical independence — hence partial. Tie: per-iteration and final evidence of real runs reproduced by the pipeline model; differently seeded runs (clustering on/off) give different evidence.",
+ "C02": ("PARTIAL — machine-checked proof in Lean 4 on the pipeline models (Model/Pipeline.lean, Model/PipelineX.lean) that "
+          "evidence() of a completed run is the log mean unnormalised mixture weight at beta=1 over the whole history, plus "
+          "measure-theoretic theorems on independence and averaging of runs and the RNG dataflow re-exported from C09 over the "
+          "G3-regenerated effect table (G4 for the kernel), tied by toleranced-Float replays (evidence-trace-replay, "
+          "evidence-of-run) and exact seed-sensitivity / run-isolation suites; NOT theorems: consistency as N grows, any "
+          "magnitude of the finite-N bias or variance, and independence of MT19937 streams (H_PRNG).",
+         "Proved for every configuration and every tape of the extended model X: when run_sampling returns, the reported "
+         "value is specLogz h 1 = log((1/N) sum_s exp(l_s - log sum_t (n_t/N) exp(beta_t l_s - z_t))) over all stored "
+         "particles, it is what the state holds, every stored batch is non-empty (no tape hypothesis), and every "
+         "per-iteration logz is the same functional at the iteration's own beta in both reweighting modes. Under nominal "
+         "batch laws with exact normalisers (not a theorem at finite N) the estimated quantity is exactly Z_beta; Jensen "
+         "gives E[log Z^] <= log E[Z^] (log-evidence biased low; no magnitude). Independence: a run's value is a function of "
+         "its own tape, so runs on independently drawn tapes are independent, Var[mean of R] = Var/R and E(mean-z)^2 = "
+         "(m-z)^2 + v/R - under H_PRNG (streams of different seeds are independent tapes: assumed; that a run reads no other "
+         "entropy is C09's G3 table plus suite run-isolation, exact, every run). Dataflow: no library operation forgets the "
+         "seed (G3 table regenerated). NOT covered: consistency as N -> infinity (row 7) - hence partial. Real run() + "
+         "evidence() calls over the lattice (clustering, volume-variation, boundary kinds) must stop where the model stops "
+         "and agree to 1e-9.",
          "DESIGN.md §6 C02"),
- "C08": ("Lean 4 proof on a byte-prefix crash model of the file system and a map model of save/load/resume, with the save protocol / load method / cadence regenerated from source (AST translator G7) + exact round-trip, cadence, protocol-trace and crash-injection correspondence",
-         "tempRename protocol: in EVERY crash state (every op prefix, every byte offset of the last write) the final name holds the old content or the complete payload, hence is absent or loadable; the direct protocol is not (documented witness); a trace classified tempRename has the shape the theorem needs — obligation decided on the op list regenerated from save_sampler_state; load(fresh, save s) restores current and history exactly (defaults only where s had None), resume continues iter/calls and keeps the restored history as a prefix; periodic checkpoints exactly at t0 + j*k plus the final one; pool detached and always re-attached. Real saves are traced (open/write/flush/fsync/replace) and killed at op boundaries and byte offsets in child processes.",
+ "C03": ("Machine-checked proof in Lean 4 (Mathlib measures and Markov kernels, Bochner / Lebesgue integrals, tsum "
+          "re-indexing for folds) on the executable models Model/Kernel.lean (one step), Model/KernelRun.lean (parallel_mcmc "
+          "and the run loop) and Model/ModeStatsNum.lean (ModeStatistics constructor), with the kernel expressions, run-loop "
+          "rules and write-site / dispatch tables regenerated from mcmc.py by translator G4 and proved equal to the canonical "
+          "model (gen_eq_canon_*), tied to the real runners by toleranced-Float suites under taped randomness (kernel-step, "
+          "kernel-run, mode-stats-model) and an exact dispatch suite.",
+         "For every dimension, every mode (mu, Sigma SPD, nu > 0), every beta, every measurable log-likelihood: the LAW of "
+         "the executable model's accept/reject step leaves exp(beta l) 1_cube invariant - tpCN for 0 < sigma < 1, RWM for "
+         "every sigma != 0, hard walls, correlated factors (C03_tpcn_step_law_invariant, C03_rwm_step_law_invariant); RWM "
+         "with any subset of periodic coordinates in any dimension; reflective coordinates in d = 1. The former textbook "
+         "steps are theorems: density of the candidate from the laws of the gamma / normal / uniform draws, detailed balance "
+         "=> reversibility => invariance on Mathlib kernels. Run model: assignments never written after construction (G4 "
+         "write-site table), sigma fixed within a pass and handed between passes, tpCN sigma in [0, 0.99], diminishing "
+         "adaptation, out-of-cube candidate rejected, state stays in the cube, step count bounds. Constructor model: Cholesky "
+         "sound, complete, unique; inverse; error classes. Remaining: H_tapes (numpy's gamma/randn/rand have their documented "
+         "laws and are independent: assumed; only the argument wiring is checked); reflective folds in d >= 2 only under "
+         "evenness; N-walker product stated pairwise; adaptation across steps and the stopping time not covered; LAPACK "
+         "compared to 1e-11 cond. FALSE and recorded: tpCN on folded coordinates (F17), reflective + correlated covariance "
+         "(F21), both with Lean counter-examples.",
+         "DESIGN.md §6 C03"),
+ "C04": ("Machine-checked proof in Lean 4 on ONE model term of compute_logw_and_logz (Model/Weights.lean) evaluated at the "
+          "reals, at reals with an arbitrary rounding after every operation, and at Float, plus a key-level model of the "
+          "per-key history lists and the results cache (Model/WeightsKeys.lean) and sampler-level theorems on "
+          "Model/ClosedLoop.lean + Model/Posterior.lean; translator G13 regenerates the function text, its call sites and the "
+          "cache discipline of StateManager; toleranced-Float suites on generated histories, call sequences and real (also "
+          "resumed) runs tie the models to the code.",
+         "For every well-formed history (T >= 1, every n_t >= 1, any real beta_t, z_t, logl; WF is the statement's own "
+         "quantifier): logw = beta l - log sum_t (n_t/N) exp(beta_t l - z_t) per stored particle in stored order, logz = log "
+         "mean weight, normalised weights sum to one, invariance under ANY permutation of iterations (position-level form), "
+         "the mixture regrouped by distinct beta, the shift law, uniformity at beta = 0, exp arguments <= 0. Key level: on an "
+         "aligned history the function as it reads the real per-key lists is the model, any number of complete iterations "
+         "gives an aligned history, and for EVERY call sequence compute_results()['logw'] is never stale (cache discipline "
+         "regenerated by G13). Sampler level: at every loop-top state of any run - also resumed with another n_particles - "
+         "the formula holds, and posterior(return_logw=True) / evidence() expose exactly these numbers for every option "
+         "combination. Floating point: all outputs bounded and an evidence returned for |logl|, |z| <= 1e300 under H-IEEE "
+         "alone (standard rounding model of binary64 and numpy's exp/log: assumed, sampled on the platform every run by suite "
+         "ieee-H). Outside the statement (misaligned lists, non-finite inputs) the behaviour is characterised, not claimed. "
+         "Real StateManager / Sampler within 1e-9(1+scale).",
+         "DESIGN.md §6 C04"),
+ "C05": ("Machine-checked proof in Lean 4 on four models of the reweighting step - Model/Reweight.lean generic in the metric "
+          "oracle, the ESS-mode pipeline Model/Pipeline.lean, the closed-loop run Model/ClosedLoop.lean + "
+          "Model/ClosedResume.lean in both metric modes, and Model/Reweight.lean evaluated at reals-with-NaN under an "
+          "arbitrary monotone rounding - with translator G1 regenerating the tolerances and G10 compiling the 26 decision "
+          "terms, statement skeletons and the writers of state['beta'] from steps/reweight.py; exact-dyadic and bit-exact "
+          "decision suites on the real Reweighter with an injected table oracle, whole-run / resume-run observers and "
+          "closed-loop replay tie the models to the code.",
+         "On the closed-loop model of run_sampling (every World of external functions, every configuration, both metric "
+         "modes), for every run that stays inside the model (checked by the replay on real runs): beta_0 = 0, non-decreasing, "
+         "<= 1; warm-up holds beta = 0 while k n_particles < target; after an advance the pool's own ESS at the ESS-limited "
+         "temperature is >= target and that limit is tight within the regenerated tolerance (<= 14 halvings, fuel never "
+         "decides); volume-variation mode never goes beyond it; recorded beta, evidence, ESS and the weights handed to "
+         "trim_weights / the fit and to the resampler all belong to the one beta written to state - the same-temperature "
+         "clause for EVERY scalar type including Float, all 7 branches. Range, monotonicity and same-temperature also hold "
+         "with NaN oracle answers under any monotone idempotent rounding. Continued runs (resume path, load_state(); run(), "
+         "second run()) continue the schedule from the restored beta (three-way prologue; the old two-way prologue restarting "
+         "at 0 is the witness of F34). The model's decision expressions and literals are the source's (G10, rfl for every "
+         "scalar type). Remaining: the meaning of the rounded ESS comparison, termination and tightness UNDER ROUNDING and "
+         "+-inf answers are exercised bit-exactly by the Float suites only; the volume_variation function is a World "
+         "parameter (C20's).",
+         "DESIGN.md §6 C05"),
+ "C06": ("Machine-checked proof in Lean 4 (incl. Lebesgue integrals over the offset and the product measure of n uniforms) on "
+          "Model/Resample.lean and Model/ResampleX.lean - systematic_resample with numpy's pairwise np.sum inside, numpy's "
+          "legacy choice with its kahan-sum validation, Resampler.run and the call sites in execute_iteration / posterior - "
+          "instantiated at the reals, at every scalar type and at rounded real arithmetic; no translator (hand-written models; "
+          "the constant SQRTEPS is compared at run time); exact-dyadic (complete offset partition), bit-exact Float and "
+          "exact-rational bound suites tie the models to the real routines and to real Sampler iterations.",
+         "For every n, every weight vector, every offset and every scalar type (so for the Float execution itself): the "
+         "systematic routine returns exactly n valid non-decreasing indices, IndexError exactly on the empty vector; the loop "
+         "spec fixes every index. Over the reals: with sum 1 and in the renormalising branch the closed-form count, the "
+         "floor/ceil law, the full copies law and unbiasedness (integral over u0 = n w_j); for EVERY sum |count_j - n w_j| < "
+         "1 + n|sum - 1|; a zero-weight particle is never selected (both schemes, every draw). Inside a run the array "
+         "Resampler.run and posterior receive is w/sum(w) with sum exactly 1, so the literal floor/ceil clause holds there "
+         "for any log-weight vector, in every annealing iteration of the pipeline model. Multinomial: numpy's validation "
+         "accepts iff non-empty, entrywise >= 0, |sum-1| <= 2^-26, then n valid indices, index law w_i/sum(w), n w_i/sum(w) "
+         "expected copies under H-iid (independent U[0,1) draws: assumed) and the assumption that numpy's choice refines the "
+         "transcribed model (tied bit for bit). Floating point: the count bound under H-fp (rounding model; audited per "
+         "operation on the real code every run); means in floats are oracle-only. The literal floor/ceil clause is FALSE "
+         "inside the tolerance band (known finding F20, reachable only by calling tools.systematic_resample directly).",
+         "DESIGN.md §6 C06"),
+ "C07": ("Machine-checked proof in Lean 4 by induction over whole runs on the StateManager-level record model "
+          "Model/RecSM.lean + Model/RecSM2.lean (None slots, per-key histories, blob gate, one MCMC pass with fold / bounds "
+          "check / substitution, warm-up redraw loop, execute_iteration, posterior, results, dict round trip), on "
+          "Model/LogLike.lean (_log_like dispatch and packing) and on the older struct-of-arrays model Model/Records.lean, "
+          "with translators G5 (gather / mask tables) and G5-sites (closed-world tables of every record-key writer, fancy "
+          "index, blob gate, wiring and statement skeletons) regenerated from source; exact tagged-particle and exact-dyadic "
+          "suites on the real Sampler plus the property's own oracle on whole real runs tie them to the code.",
+         "For every configuration, every tape (raw proposals, accept bits, resampling indices, warm-up batches) and any "
+         "number of iterations from a fresh or a loaded state: after the resampler, after the mutator and after the commit "
+         "every current row satisfies x = T(u), logl = L(x), blob = L(x).blob, with the blobs array present exactly when the "
+         "likelihood returns blobs; every per-key history list stays aligned batch by batch; the dictionary sample() returns, "
+         "every posterior() row under all option combinations and results() are coherent rows of the pool; no stored or "
+         "returned logl is -inf; resampling uses one index vector, mutation one accept mask, -inf replacement one source map "
+         "for all keys; after the real fold a point accepted by check_bounds is in the cube and a rejected one is replaced by "
+         "the walker's own position. Completeness is an obligation decided on regenerated closed-world tables (only "
+         "Resampler.run and Mutator.run write record keys, package-wide). Named hypotheses, each checked by a suite every "
+         "run: H_pure (user functions deterministic; presupposed by the statement), RowWise (numpy packs blob row i from "
+         "result i alone), TapeOk (rand in [0,1)), dill round trip = identity on values (C08); H_round only for the rounded "
+         "fold variant. The kernels' arithmetic is C03's.",
+         "DESIGN.md §6 C07"),
+ "C08": ("Machine-checked proof in Lean 4 on a byte-prefix process-crash file-system model (Model/FS.lean), a map model of "
+          "the StateManager with defaults loop and cadence (Model/Checkpoint.lean) and a model of the whole SamplerCore around "
+          "a checkpoint (Model/Resume.lean: pickled dictionary, load, three-way prologue, loop, epilogue, files written), with "
+          "translator G7 in three programs regenerating the save protocols, the StateManager IO and the dictionary keys / load "
+          "table / attribute list / run shape from core.py and state_manager.py (G5 for the key sets); exact round-trip, "
+          "cadence-resume, protocol-trace, crash-injection, metadata and worker-pool suites on the real code tie them.",
+         "Crash safety: in EVERY crash state (every op prefix, last write cut at every byte) of both temp-rename saves the "
+         "final name holds the old content or the complete payload, from any initial file system, also over a stale temp and "
+         "for a re-save after a crash; a save of another name interleaved in any order changes nothing (same name from two "
+         "processes is excluded, with a witness); the protocols and temp names are regenerated from source. Restore: load "
+         "into any fresh sampler gives back the identical StateManager record, and every checkpoint a run wrote (exactly at "
+         "t0 + j k and final) holds, at the end of the run, the complete pickle of the world after j iterations - under "
+         "H_dill (loads(dumps d) = d, a strict prefix does not load: trusted, exercised by every suite). What load restores "
+         "(n_total, logz_err, generator position; never reseeds) is proved on regenerated tables. Resume: numbering, calls "
+         "and history prefix continue; path and manual resume give the same world, a second run() continues; the loop exits with C12's "
+         "postconditions for the resuming call's n_total. That the resumed run IS the remainder of the uninterrupted one "
+         "needs H_det (an iteration is a function of StateManager, generator position, component state) and H_comp "
+         "(independent of component state: proved for cluster_every = 1 or clustering off, false in general with a Lean "
+         "witness; the suite compares bit-identity where predicted). 'Saving works in every configuration' is execution only.",
          "DESIGN.md §6 C08"),
- "C10": ("Lean 4 proof at ℝ on the whole-iteration pipeline model (induction over iterations, using the C04 shift law, the C05 oracle-congruence and the regenerated acceptance expression) + paired real runs and shifted trace replay",
-         "C10_run: for every tape, every configuration of the pipeline model and every constant c, running on log-likelihoods shifted by c gives the same schedule, ESS, resampled indices, accept masks and particles, every committed log-likelihood shifted by c, every recorded evidence by beta_t*c and the final evidence by exactly c (also the failing outcomes coincide). Real paired runs (kernel x resampler x clustering x metric mode, c up to +-1000) must agree within 1e-8 with a c/2, 2c re-test against rounding-induced flips; runs with shifted likelihoods are replayed by the pipeline model.",
+ "C09": ("Machine-checked proof in Lean 4 on adaptive RNG effect programs (interaction trees over an abstract generator, "
+          "Model/RngRun.lean: seeding, draws, private generators, get_state/set_state through run / save / load / resume), on "
+          "the in-order call-site model of one sampler iteration (Model/RngSites.lean) and on the older straight-line model "
+          "Model/Rng.lean, with translator G3 regenerating the alias-aware RNG effect table and G3b the over-approximated call "
+          "graph with reachability certificates from /repo; ten exact suites (bit patterns, generator states, event logs, "
+          "integer counts) tie them to the real code.",
+         "For ADAPTIVE code (draw counts and branches may depend on the numbers drawn) and every generator: a fresh seeded "
+         "run is a function of its seed and its event log is exactly the seed's stream from position 0; a seed-free program "
+         "leaves the generator on the orbit of the state it found, advanced by exactly the requests consumed - the old "
+         "injectivity form is FALSE for adaptive code, with a Lean counter-example; a mixture fit with its private "
+         "RandomState leaves the process-wide stream untouched; successive iterations consume consecutive segments; resume "
+         "restores the saved position and continues with exactly the suffix of the uninterrupted log; load_state(); run() and "
+         "a second run() continue without seeding; saving perturbs nothing. Decided on tables regenerated every run: no "
+         "literal seed, no unknown entropy source (aliases, getattr, os.urandom, stdlib random), seeding only in "
+         "_initialize_fresh on an empty history and in systematic_resample's parameter, every set_state argument is a loaded "
+         "saved position, the model's sites are the table's sites. The requests of an iteration are a closed form of "
+         "configuration and observables, compared exactly. Hypotheses, each checked on the real code every run: call graph "
+         "sound (observed edges within the graph), hfirst (first values of two seeded streams differ), hnocycle (no return to "
+         "an earlier state); H_pure (same inputs) is the statement's premise. Oracle-only: non-overlap of differently seeded "
+         "MT19937 streams; draws with a user pool.",
+         "DESIGN.md §6 C09"),
+ "C10": ("Machine-checked proof in Lean 4 by induction over the closed-loop model of run_sampling (Model/ClosedLoop.lean: "
+          "nothing read from a tape, only a World of external functions abstract) and over the tape-driven pipeline "
+          "Model/Pipeline.lean, plus rounded-arithmetic bounds on the generated acceptance expression, with translators G4 "
+          "(kernel expressions), G5 (tables) and G9 (where a log-likelihood or log-weight can be read: Gen/Shift.lean) "
+          "regenerated from source; toleranced paired real runs, closed-loop and tape replays, checkpoint comparison and an "
+          "exact rounding-bound suite tie the models to the code.",
+         "C10_cl_run_from: for every World (likelihood, prior draw, random stream, trainer, proposal generator, volume "
+         "metric), every configuration, every constant c and every well-formed start state (fresh, loaded, or a second "
+         "run()), running the closed-loop model on like + c gives the same schedule in BOTH metric modes, the same trial "
+         "temperatures and oracle calls, ESS sequence, trainer input, proposals, step sizes, number of mutation steps and of "
+         "iterations, stream consumption, counters, particles, normalised weights and all 16 posterior() option combinations; "
+         "every log-likelihood + c, every recorded evidence + beta_t c, the final evidence exactly + c; warm-up redraw loop "
+         "and -inf replacement identical; both runs fail together; checkpoints differ only in l and z_t. The former "
+         "hypothesis H_tape (the shifted run consumes the shifted tape) is no longer needed. That the real trainer, sigma "
+         "adaptation, stop rule and guard read no log-likelihood and that every log-weight is used normalised and max-shifted "
+         "is decided on G9/G5 tables regenerated every run. Rounding: one accept/reject decision flips only if the uniform is "
+         "within an explicit bound of alpha (H_round: standard rounding model, assumed; the inequality is checked on the "
+         "doubles of every recorded step), ESS within exp(+-12e) for perturbed stored data; the whole run under rounding is "
+         "oracle-only (paired runs to 1e-8 with a c/2, 2c re-test).",
          "DESIGN.md §6 C10"),
- "C14": ("Lean 4 proof on list models of label-to-mode lookup and of the clustering cadence state machine + exact correspondence on the real ModeStatistics / Mutator / Trainer / Resampler and on real runs",
-         "For every training label vector and EVERY raw assignment the mapped mode index is < K, the relabelled assignment is a present label and the mode at that index was built from exactly the training particles of that label (identity when the label is present); for every cluster_every >= 1, every beta schedule and every resume point no predict precedes the first fit; cap K <= n_max_clusters given C15's bound; a constructed mode object has inverse and Cholesky factor. The old raw-index lookup and the old cadence are kept as documented counter-examples of the two repaired defects.",
+ "C11": ("Machine-checked proof in Lean 4 on a linear-space, Rat-executable model of the warm-up evidence rule "
+          "(Model/Warmup.lean), the redraw loop (Model/WarmupR.lean), the pipeline with that loop (Model/Pipeline.lean + "
+          "Model/PipelineR.lean, both reweighting modes), C07's record model Model/RecSM2.lean and the finite-space mean-field "
+          "lemmas of Lemmas/MIS.lean, incl. expectation, variance and concentration over product laws; no translator "
+          "(hand-written models); exact-dyadic scripted-batch suites on the real Mutator / Sampler, an exact record suite, a "
+          "toleranced whole-run replay and a suite on numpy's own stream tie them to the code.",
+         "For EVERY tape, any number of warm-up iterations, both reweighting modes and nothing assumed about which draws are "
+         "finite: the warm-up returns only finite log-likelihoods, each stored row is a whole (u, T u, L(T u)) record of one "
+         "point of ONE drawn block, the loop keeps the first block with a finite draw and counts every draw; beta stays 0 and "
+         "the committed evidence is n_fin/n_drawn when draws were -inf or discarded, else the harmonic mean of the earlier "
+         "values, so every recorded warm-up evidence lies between the smallest and largest recorded fraction - counted once, "
+         "nothing compounds (the old compounding rule F7 and the stored all -inf batch F8 are theorems about the pre-fix "
+         "code). No -inf proposal is accepted at beta > 0. The final evidence of the model is the log pool mean of the "
+         "mixture weight with the RECORDED normalisers. Under H_iid (finiteness indicators independent Bernoulli(f): PRNG "
+         "idealisation; its structural half - one fresh block per pass, every row evaluated once, every draw counted - is "
+         "checked on the real code every run): E[Z_1] = f sum_j r^j/(j+1) with f <= E <= f/(1-r), r = (1-f)^n (not exactly "
+         "unbiased: theorem), variance f(1-f)/n, Chebyshev, weak LLN, whole-phase concentration of logz at log f, marginal "
+         "law of a stored particle. 'Converges to the supported integral' is proved only in the mean-field recursion "
+         "(H_meanfield: nobody discharges it; false as an exact finite-N identity by C01).",
+         "DESIGN.md §6 C11"),
+ "C12": ("Machine-checked proof in Lean 4 on the composed run model Model/RunEntry.lean (the whole run_sampling with its "
+          "three-way entry, n_total attribute, guard, epilogue, evidence, on the closed-loop state of Model/ClosedLoop.lean) "
+          "and on Model/PosteriorX.lean (compute_posterior with optional blobs and its four return statements; first pass: "
+          "Model/Run.lean, Model/Posterior.lean), with translators G1 (termination tolerance, loop and epilogue shape), G5 "
+          "(posterior gather / return tables) and G12 (entry arms, every assignment and read of n_total, blob gate, return "
+          "selector) regenerated from core.py; exact, bit-exact and toleranced suites on the real Sampler (posterior "
+          "combinations, guard, epilogue, run-entry, before-run) tie them.",
+         "C12x_run_post: for every World of external functions, every configuration, every good sampler (new, one that "
+         "already ran, or one that loaded any checkpoint the model can write) and every call run(n_total[, path]): if the "
+         "call returns, beta <= 1 and 1 - beta < the regenerated tolerance (= double 1e-4), the posterior weights computed "
+         "inside the model from the stored batches are non-negative, sum to one and have ESS >= THIS call's int(n_total), "
+         "evidence() is the balance-heuristic estimate at beta = 1 over the final history, and the history the call started "
+         "from is a prefix. Resume with another n_total, manual resume (= path resume since the repair of F34) and a second "
+         "run() are covered; asking for no more than delivered returns at once. Posterior: for every non-empty history, all "
+         "16 option combinations, blobs declared, merely present or absent, every ess_trim, bins_trim >= 1 and resampling "
+         "offset the routine returns, all returned arrays have one length, each returned row is ONE stored particle under "
+         "every array (the blob is the blob of the returned x), weights >= 0 summing to one, exactly uniform under "
+         "resampling; the former assumption 'history arrays have one length' is a proved run invariant. Error paths before "
+         "any run are theorems. Partial correctness only: termination of run() is not claimed. Exact reals; Float rounding of "
+         "exp / sum / ESS is bridged by the suites; Sterbenz exactness of 1.0 - beta is used informally.",
+         "DESIGN.md §6 C12"),
+ "C13": ("Machine-checked proof in Lean 4 on a value-level model of _log_like, _get_distribute_func and FunctionWrapper for "
+          "every pool value with a pool whose tasks complete in an arbitrary order (Model/LLEval.lean), a control-flow model "
+          "of the call counter over whole fresh / resumed / continued runs with every numerical part opaque "
+          "(Model/CallsRun.lean), the older table interpreter Model/Dispatch.lean and the shared pipeline Model/Pipeline.lean "
+          "fed through the evaluator; translator G6 regenerates the dispatch branches, every likelihood call site, every "
+          "increment and every writer of 'calls' from source; exact and bit-exact suites on the real code under many "
+          "evaluation strategies tie them.",
+         "For every pool value (None, every int incl. negatives and bools, objects with or without map) dispatch is a closed "
+         "form and fails only for a map-less non-int object. For every permutation of task completions (H_perm = the "
+         "statement's 'any completion order') the pool model IS the serial map: logl, blobs (plain dtypes) and even failures "
+         "are identical under every point-by-point strategy; handing results back in completion order would break this (Lean "
+         "witness). For every Algo (all numerical parts opaque) the whole run - final state, counter, batches asked - is a "
+         "function of the evaluator's values only, hence identical under any two strategies; on the pipeline model this holds "
+         "verbatim at Float. Counter: after run_sampling calls = start value + number of points in all batches handed to "
+         "_log_like = length of the evaluation log, for any sequence of warm-up (k redraws give k+1 batches), annealing "
+         "(adaptive step count within proved bounds), resumed and second runs; the list of ALL writers of 'calls' in the "
+         "package is regenerated and equals the model's. Assumed: hvec (vectorised likelihood pointwise equal: the "
+         "statement's premise), H_rng (likelihood and pool do not touch numpy's global generator), a real pool is an instance "
+         "of the pool model - checked every run on nine pool doubles, a real ThreadPool and executors. Not covered: the "
+         "progress bar's display of calls.",
+         "DESIGN.md §6 C13"),
+ "C14": ("Machine-checked proof in Lean 4 on list models of label-to-mode lookup (Model/Modes.lean), the ModeStatistics "
+          "constructor with its positive-definiteness gate (Model/ModeGate.lean), the clustering cadence as a state machine "
+          "with fit generations across run / save / load / resume / crash-and-rerun (Model/Cadence.lean, Model/CadenceX.lean) "
+          "and one annealing iteration Trainer.run -> Resampler.run -> mode_index with the contracts of C15, C19 and C20 "
+          "plugged in as theorems (Model/TrainStep.lean); translator G1 regenerates DOF_FALLBACK (the rest is hand-modelled); "
+          "exact suites on the real ModeStatistics / Trainer / Resampler / Mutator, exact event strings and data flow on real "
+          "Samplers, and a toleranced Cholesky-contract check tie them.",
+         "For every valid weight vector, every history, every raw assignment (C14_run_model, the statement assembled end to "
+         "end): at mutation every active particle's label is mapped to an index < K of an existing mode; the label written "
+         "back is a training label and a label that has a mode is kept, one without goes to a mode at minimal distance; the "
+         "mode at that index was fitted from exactly the training particles carrying that label and its mean lies in their "
+         "bounding box; scale matrix symmetric; 0 < nu <= max(1e6, fallback); K_modes <= K_fit <= n_max_clusters for a fresh "
+         "and for a reused fit. For every cluster_every >= 1, every beta schedule and every sequence of run / save / "
+         "load_state / resume on a fresh or used sampler / iteration that raised and was re-run: both predicts of an "
+         "iteration are served by ONE fit generation, the latest of the existing object, and no predict precedes the first "
+         "fit. Remaining: H_lapack (numpy inv + cholesky return on a symmetric matrix iff all Gauss-Jordan pivots are "
+         "positive; the gate is proved equal to positive definiteness on PSD input; compared with the real constructor every "
+         "run away from the knife edge) for 'scale matrix positive definite'; IEEE finiteness and float symmetry are run-time "
+         "oracles. The constructor refusing a degenerate cluster (exactly: a resample constant in a coordinate) is "
+         "characterised by a theorem and stays known finding F24; the old raw-index lookup and the old cadence are kept as "
+         "counter-examples of the two repaired defects.",
          "DESIGN.md §6 C14"),
- "C17": ("Lean 4 invariant proof by induction over op sequences on a reference-level (heap + ghost sets) model of StateManager + exact state-machine differential on random op sequences and on real sampler iterations with scribbling",
-         "Inv (every internally reachable array is disjoint from every array ever returned to the caller, except arrays stored on request with copy=False) holds after every op sequence of the full alphabet; hence any observation is independent of scribbling on returned arrays (C17_full: traces with and without scribbles coincide); a commit appends exactly one entry per recorded non-None key and nothing else; old history is a payload-prefix of new history for every op but import. Real StateManager and the model run the same random op sequences (incl. malformed ops) and must print identical digests of all observable reads after every op.",
+ "C15": ("Machine-checked proof in Lean 4 on scalar-polymorphic executable models of the whole GaussianMixture "
+          "(Model/GMM.lean: Cholesky log-density with a refusal oracle, log-space E-step, M-step of Model/EM.lean, lower "
+          "bound, EM loop, weighted k-means++ from a rand() tape, restarts, predict, bic) and the whole "
+          "HierarchicalGaussianMixture (Model/HFit.lean: normalisation, BIC-gated split loop with the child labels computed, "
+          "final fits, predict / predict_proba on both paths; Model/HGMM.lean is the earlier recorded-decision loop), by loop "
+          "invariants and list induction; no translator (hand-written models); toleranced whole-fit suites, exact split "
+          "replay, real-vs-real replication and the statement's own oracle on every real fit tie them to cluster.py.",
+         "For every data set, weights >= 0 with positive sum, K >= 1, every rand() tape in [0,1) and EVERY refusal behaviour "
+         "of scipy's density: fit returns with 1 <= n_iter_ <= max_iter; weights on the simplex; covariances symmetric PSD "
+         "('full') / entries >= 0 ('diag'); the mean of every component with mixing weight >= tiny inside the bounding box; "
+         "every E-step row a probability vector (the rule before 632b97e was not: theorem, finding F30); integer weights "
+         "equivalent to replication for the WHOLE fit (same tape, same n_iter_, converged_, lower_bound_). Hierarchical "
+         "model, for every scalar instance (so also Float with NaN / inf queries) and with no oracle hypothesis: labels "
+         "partition the training points into [0,K), 1 <= K <= max_iterations + 1, nothing split or every final cluster >= "
+         "min_points, predict in [0,K) on both paths for arbitrary queries, cluster_weights_ and predict_proba rows on the "
+         "simplex (reals). Remaining: H_scipy (multivariate_normal.logpdf is the Gaussian log-density of the lower triangle "
+         "or raises; which matrices it refuses is arbitrary - the formula is checked every run incl. all three except "
+         "branches); H_round (monotone idempotent rounding fixing 0 and 1) only for the float reading of the E-step; "
+         "'tied'/'spherical' outside; max_iter = 0 / n_init = 0 excluded. Oracle-only: the bic value, NaN rows of "
+         "predict_proba in floats, posterior semantics of 'diag' prediction.",
+         "DESIGN.md §6 C15"),
+ "C16": ("Machine-checked proof in Lean 4 on the scalar-polymorphic model of apply_boundary_conditions / check_bounds "
+          "(Model/Boundary.lean) and of their Python glue - column updates of 2-D arrays, None arguments, set arithmetic, "
+          "early exit, the two np.all passes, the call site in BaseMCMCRunner.run (Model/BoundaryPy.lean) - at the reals, at "
+          "rounded reals under an arbitrary monotone idempotent rounding, and for every scalar instance incl. Float, Float32 "
+          "and Rat, plus Lebesgue push-forward and kernel reversibility of the folded proposal in d dimensions; no translator "
+          "(the index validation cited is C18's G2 table); exact-dyadic, bit-exact (binary64 and binary32) and own-oracle "
+          "suites on the two functions, whole calls, the real call site and SamplerConfig tie them.",
+         "For every real vector, every index lists (duplicates, overlaps, out-of-range) and every scalar instance: "
+         "non-designated coordinates untouched; over the reals periodic = x - floor x in [0,1), reflective = distance to the "
+         "nearest even integer in [0,1] (even, period 2, identity on [0,1]), the map idempotent, check_bounds accepts iff all "
+         "remaining coordinates lie in [0,1] and commutes with the map. The Python glue is proved to be the core maps: a 2-D "
+         "input is folded column by column = row by row, None skips the loop, the check returns one flag per row also in the "
+         "early exit and for zero rows; at the call site each walker is 'fold, check the folded point, keep it or the current "
+         "point'. Measure theory, unconditional: the preimage families are the whole fibre and the label sum is the density "
+         "of the law of fold(x + xi) for any mix of coordinate kinds in any dimension, with the mass of k; reversibility of "
+         "the folded kernel and of the fold-then-reject sub-kernel under the sharp hypothesis SignInv (density invariant "
+         "under negating reflective coordinates - false for the sampler's correlated covariance: F21 under C03). Floating "
+         "point: range [0,1] and idempotence modulo the periodic end points 0 ~ 1 under H_round (monotone idempotent rounding "
+         "fixing 0 and 1: assumed), closeness under the named accuracy hypothesis Hacc; both checked on the real code every "
+         "run. Indices are ints in range, not bools: an assumption discharged by SamplerConfig since b8d82fc and checked by "
+         "suite index-validation.",
+         "DESIGN.md §6 C16"),
+ "C17": ("Machine-checked invariant proof in Lean 4 by induction over op sequences on three reference-level models of "
+          "StateManager - a flat heap with ghost sets escaped / imported (Model/StateMgr.lean), its extension by "
+          "compute_posterior, execute_iteration, compute_results as a function of history, a second manager and resume "
+          "(Model/StateMgrX.lean), and a nested heap for object arrays, lists and dicts with deep / shallow copies "
+          "(Model/StateMgrN.lean) - with translators G5-tables and G5-smsites regenerating key sets, the copy discipline of "
+          "every accessor and store of state_manager.py and every use of the manager elsewhere; exact digest differentials on "
+          "random op sequences, real compute_posterior, resume through a file and real sampler runs with scribbling tie them.",
+         "Inv (every internally reachable array is disjoint from every array ever handed to the caller, except arrays stored "
+         "on request with copy=False) holds after every op sequence, on the flat model and on the nested model down to the "
+         "elements of returned containers; every accessor output (current, history, last history, to_dict, results, every "
+         "posterior option combination, the dictionary sample() returns) is allocated by the call and caller-owned. Hence a "
+         "trace with the caller's writes equals the trace without them (C17_full, flat model; under okSeq = the statement's "
+         "own premise); on the nested model independence is proved per write. compute_results, cached or not, is a function "
+         "of the committed history; posterior touches nothing. Append-only: an iteration commits once and extends each "
+         "recorded key by exactly one batch, earlier payloads unchanged; over any import-free run old history stays a prefix "
+         "and a list grows by the number of successful commits; a resumed manager shares nothing with the old one or the "
+         "exported dictionary, restores the committed payloads, and stays append-only across the checkpoint. That the code "
+         "has the model's copy rules, that no call site outside the class passes copy= or touches the private dictionaries, "
+         "and the shape of an iteration are decided on regenerated tables. Assumed: numpy copy / stack / indexing / deepcopy "
+         "allocate (np.shares_memory checked on every accessor output every run). Not covered: nesting deeper than 2, exotic "
+         "top-level value types.",
          "DESIGN.md §6 C17"),
- "C18": ("Lean 4 proof about the validation rule table, constructor order table and clusterer wiring regenerated from source (AST translator G2), with a Python-semantics interpreter over a typed value universe + exact correspondence on thousands of generated configurations and a covering array checked in Lean and executed",
-         "SamplerConfig accepts iff the documented constraints hold (and types are sane): every violation — alone or combined — is rejected, nothing valid is rejected; rejection happens in the constructors before any likelihood call (decided on the regenerated call table); wiring of the clusterer parameters is sound. The pairwise / 3-wise covering arrays the harness executes are verified in Lean by decide. 'Every valid combination runs to completion' is execution only (partial): all covering rows must finish and meet the run postconditions; the residual degenerate-cluster crash of tiny populations is the recorded known finding F24.",
+ "C18": ("Machine-checked proof in Lean 4 about tables regenerated from source, interpreted with Python semantics over a "
+          "typed value universe (Model/ConfigSpec.lean for the validation rules, Model/CtorPath.lean for every downstream use "
+          "of an option): translator G2 regenerates the statements of __post_init__, the ordered rule table of validate(), the "
+          "constructor call table and the clusterer wiring, G8 an inter-procedural data flow of every option to its use sites "
+          "with guards plus the dispatch chains and runner classes, and the covering arrays / interaction block the harness "
+          "executes are checked in Lean by decide; exact suites on thousands of generated constructions, every context tag, "
+          "direct dispatcher calls and real runs of the covering rows tie them.",
+         "For every value of the universe (int, float incl. inf / nan, bool, str, None, list, callable, Path, object) of "
+         "every option: SamplerConfig / Sampler accept iff the documented constraints hold - every violation alone or "
+         "combined is rejected with the modelled exception class and ordered messages, nothing valid is rejected, defaults "
+         "stored as documented; since b8d82fc bools are not counts or indices and the two targets must be finite (F37, F38). "
+         "Rejection precedes any call of the likelihood or the prior (two independent extractions). The accepted kernel and "
+         "resampler names are exactly those dispatched; component keywords carry the right options. Valid => runs, "
+         "deterministic part: under H_doc (every option has its documented type: this audit's reading of the docstring; "
+         "assumed) every one of the ~177 use sites is defined, and acceptance alone guarantees this for all options except 11 "
+         "named gap options that validate() does not check, each with an accepted configuration that certainly raises "
+         "(theorems; outside the statement's list). The context semantics is hand-written and compared with Python / numpy on "
+         "every pool value every run. Execution only: the numerical part of 'runs to completion' and the run postconditions "
+         "on pairwise / 3-wise covering rows plus a full-factorial interaction block (pool kind x save_every x likelihood "
+         "kind x fresh / resumed), all verified complete in Lean; numpy-typed option values; the degenerate-cluster crash of "
+         "tiny populations is known finding F24.",
          "DESIGN.md §6 C18"),
-})
-# added by the clause-audit round (see clauses/<id>.md for the clause -> theorem -> suite -> status matrix of each property)
-APPEND = {
- "C03": " Clause round: the quadratic forms the runners compute are proved to be the model's scalars (delta >= 0 from Sigma = L L^T, CN exponent = noise norm), every per-mode array is indexed by the walker's own assignment (decided on a regenerated index table), a step keeps the state inside the cube, mixed hard/periodic/reflective coordinates, sigma in [0, 0.99] after every adaptation; the ensemble step (gather by assignment, per-cluster adaptation) is inside the model.",
- "C04": " Clause round: a rounded-arithmetic instance (every operation followed by an arbitrary rounding with relative error u and absolute error eta below Omega) of the SAME model term proves that exp is only called on arguments <= 0, log only on [1/2, 3], and all outputs are bounded (hence finite) for |logl|, |z| up to 1e6 — under the standard rounding model of IEEE + libm, which is an assumption.",
- "C05": " Clause round: in ESS mode the schedule clauses are proved on the concrete pipeline model for every tape (beta_0 = 0, monotone, in [0,1], advanced => recorded pool ESS >= target; beta = 0 while pool <= target), tightness of the ESS-limited temperature, generated tolerances; direct-call suites reach the bisection arms that run() provably never executes.",
- "C06": " Clause round: counts and means for EVERY sum of the effective weights (bias bound n|sum - 1|, the tolerance band the routine accepts), unbiasedness in the renormalising branch, the n-draw multinomial expectation over the product measure, numpy's pairwise np.sum inside the model (bit-exact), Resampler.run and posterior(resample=True) as model functions with length/range/monotonicity theorems.",
- "C08": " Clause round: StateManager.save_state / load_state / from_dict are translated (second G7 program), proved crash-safe for every final name (temp name = name + '.temp', injective), restored exactly / merged as documented, and exercised by round-trip and crash-injection suites on the real functions.",
- "C11": " Clause round: the replacement step, the no -inf-accepted rule of the MCMC step and the warm-up evidence are proved on the executable pipeline model (any number of iterations), the first recorded evidence is exactly unbiased for the supported prior mass over i.i.d. draws, and whole real runs with -inf regions are replayed through warm-up and annealing.",
- "C12": " Clause round: compute_posterior is modelled whole (C20 trimming + C06 systematic resampling): for every non-empty history, every option combination, every ess_trim and bins it never raises, rows stay aligned, weights are normalised / exactly uniform; the guard's ESS is the ESS of the returned untrimmed weights; the lattice covers every documented blob form.",
- "C14": " Clause round: argmin inside the model (index < K without assumption), training labels and active assignments come from the same fit generation in every reachable state, positive dof from C19's range and the generated fallback, cap from C15's theorem and the modelled wiring, positive definiteness from the LAPACK Cholesky contract checked on the real constructor.",
- "C16": " Clause round: preimage completeness, the preimage sum is the density of the law of fold(x + xi) (Lebesgue lintegral push-forward), kernel reversibility for even increments, the whole-vector statement for mixed coordinates (hypothesis sharp: F21), and a rounded-arithmetic instance proving idempotence modulo the periodic end points 0 ~ 1 for any monotone idempotent rounding.",
- "C17": " After the repair of update_from_dict/from_dict (copies), import is no longer an aliasing opt-in: C17_import_never_aliases; re-importing an exported dictionary and scribbling on it afterwards is covered by C17_full.",
+ "C19": ("Machine-checked proof in Lean 4 with Mathlib matrices (affine invariance of the Mahalanobis form, induction over "
+          "the ECME loop) and on the executable scalar-polymorphic models Model/Student.lean (initialisation, loop, "
+          "Gauss-Jordan solve, fallback), Model/StudentNu.lean (func0, scipy's bisect and opt_nu, the function-driven loop "
+          "fitF) and Model/StudentModes.lean (ModeStatistics.from_particles / from_global with the weighted resampling, the "
+          "four Trainer.run paths, the dof the kernel reads), the list twin proved equal to the matrix-level trace; no "
+          "translator (constants compared at run time); bit-exact bisect / opt_nu suites, a toleranced replay of every fit "
+          "iterate, exact dof-path and kernel-handoff suites and the property's own oracle tie them.",
+         "For every data set with n >= 2, every digamma function psi (a parameter: nothing about it is assumed), every "
+         "tolerance and max_iter, on the executed model fitF, which is proved equal at the reals to the matrix-level trace: "
+         "the location stays inside the bounding box; the scale matrix is symmetric and, for data not inside an affine "
+         "hyperplane, positive definite at every iterate - for degenerate data at most one update happens before the Cholesky "
+         "exit and no exception escapes; the returned nu is infinite or in (0, 1e6], being a point of scipy's bisect bracket "
+         "(model of bisect tied bit for bit to the installed scipy), an exact zero or sign change of the score within "
+         "tolerance, with the no-sign-change ValueError an explicit exit and scipy's RuntimeError impossible; the returned nu "
+         "is the one that produced the returned (mu, Sigma). Equivariance of the whole fit under every non-zero "
+         "per-coordinate scaling, translation and permutation, and of the whole ModeStatistics construction incl. resampling. "
+         "Non-finite dof are replaced by the configured fallback on all four Trainer paths and whatever mode index the runner "
+         "reads. Remaining: H_lapack (solve raises iff singular, cholesky iff not positive definite - the model's pivot "
+         "criteria are proved equivalent; LAPACK checked away from rcond < 1e-6) and H_ieee (no rounding in any theorem). "
+         "Oracle-only, every run: recovery of generating parameters (fixed-seed large samples) and the law of the weighted "
+         "resampling.",
+         "DESIGN.md §6 C19"),
+ "C20": ("Machine-checked proof in Lean 4 (Cauchy-Schwarz on lists; numpy's linear percentile and linspace on a merge-sorted "
+          "list; Mathlib matrices for the volume metric; an error calculus for rounded sums) on the executable models "
+          "Model/Ess.lean, Model/Trim.lean, Model/VolVar.lean (volume_variation with its four branches, proved equal to the "
+          "matrix model) and Model/TrimSites.lean (the call sites in Trainer.run, _compute_metric_and_weights, compute_ess "
+          "with -inf), with translator G1 regenerating TRIM_ESS / TRIM_BINS; exact-dyadic, bit-exact (percentile, linspace), "
+          "toleranced, call-site and own-oracle suites tie them to tools.py and its callers.",
+         "For every non-negative weight vector with positive sum: ESS = (sum w)^2 / sum w^2 in [1, number of non-zero "
+         "weights], scale and permutation invariant, = N iff all weights equal; compute_ess incl. -inf log-weights; the "
+         "arguments at the ESS call sites are valid. Trimming, for every w, every ess, bins >= 1: one mask theta <= wn_i cuts "
+         "samples and weights (for every scalar instance), result non-empty, normalised, the survivors are the original pairs "
+         "with weight >= theta in order, ESS(trimmed) >= e ESS(all) for e <= 1 (the Trainer's constants regenerated by G1) "
+         "and never above ESS(all), exactly an initial segment of the grid passes so the result is THE largest passing grid "
+         "point, the loop stops by i = 0 (F28), scale invariance, what the caller's array holds afterwards, and Trainer.run "
+         "is this trimming on (history row, weight) pairs. Volume metric on the EXECUTABLE model: non-negative in every "
+         "branch, weight-scale invariant, complete case split (ridge iff the weighted points lie in a hyperplane; sentinel "
+         "iff they coincide), affine invariant on the full-rank branch under H_inv (Gauss-Jordan returns the inverse or none: "
+         "proved for d = 1, checked exactly per case for d >= 2); the ridge branch is NOT affine invariant (evaluated "
+         "witness). Floating point: ESS bounds with the explicit allowance (3N+4)u under H_rel, bit-identical ESS under "
+         "power-of-two scaling under H_scale - consequences checked on the real code every run; trimming and the metric in "
+         "floats are oracle-only.",
+         "DESIGN.md §6 C20"),
 }
+# the former clause-round APPEND texts are folded into the level texts above
+APPEND = {}
 NOT_YET = {}
 props = [json.loads(l) for l in open(os.path.join(HERE, "properties.jsonl"))]
 checks, na = [], []
